@@ -189,6 +189,7 @@ impl Monitor for C17 {
             gen("pktstatus-lr1110", tier.pick(256, 256, 2)),
             gen("pktstatus-sx127x", 3 * tier.pick(256, 256, 2)),
             gen("rssi-inst", 5),
+            gen("status-after-hop", status::HOP_CASES),
         ]
     }
     fn exhaustive(&self, _tier: Tier) -> bool {
@@ -199,7 +200,7 @@ impl Monitor for C17 {
          power: case = (variant, PA path, band, with/without modulation params), every request -128..127 + i32 extremes, ascending/descending/shuffled, both ramp modes, through set_tx_power_and_ramp_time; \
          symb-timeout: every symbol count 0..65535 through do_rx(Single(n)) on SX1261, SX1276, SX1272, LR1110; \
          adapter: case = (target in {recording RadioKind, SX1262, SX1276}, SF, BW), every margin 0..1000 ms through LorawanRadio::setup_rx + rx_single; \
-         pktstatus-sx126x: all 2^24 raw GetPacketStatus triples; pktstatus-lr1110 / pktstatus-sx127x: all 2^16 (rssi, snr) pairs (SX1276 LF, SX1276 HF, SX1272); rssi-inst: all 256 raw values per chip. \
+         pktstatus-sx126x: all 2^24 raw GetPacketStatus triples; pktstatus-lr1110 / pktstatus-sx127x: all 2^16 (rssi, snr) pairs (SX1276 LF, SX1276 HF, SX1272); rssi-inst: all 256 raw values per chip; status-after-hop: SX1276/SX1272 configured for reception on one of {433.175, 470.3, 868.1, 915.0} MHz, then moved to another by a bare channel switch (rx_switch_channel) or a full reconfiguration, RSSI conversions checked against the band now programmed. \
          Class = (chip, quantity, range class)."
             .into()
     }
@@ -241,6 +242,7 @@ impl Monitor for C17 {
             "pktstatus-lr1110" => status::run_lr1110(idx, rng, col),
             "pktstatus-sx127x" => status::run_sx127x(idx, rng, col),
             "rssi-inst" => status::run_rssi_inst(idx, rng, col),
+            "status-after-hop" => status::run_after_hop(idx, rng, col),
             _ => unreachable!(),
         }
     }
